@@ -23,7 +23,7 @@ func init() {
 	register(&mon.Prop{
 		ID:    "C16",
 		Level: "exploration",
-		Rule: "keys: the committed pool (Ed25519, secp256k1, P-256, P-384, P-521, RSA-2048/3072) + freshly generated keys of every non-RSA algorithm (RSA fresh in thorough). Per key: FromPubKey -> String -> Parse -> == and PubKey().Equals; DID equality vs key equality over all pairs; ~40 alternative encodings of its key material under the right multicodec (uncompressed / hybrid / wrong-prefix / off-curve / padded / truncated points, wrong-length raw keys, RSA as PKIX, non-minimal DER, trailing bytes), non-minimal multicodec varints, other multibase prefixes, case and whitespace changes, bad base58 characters, unsupported codecs; plus random strings. " +
+		Rule: "keys: the committed pool (Ed25519, secp256k1, P-256, P-384, P-521, RSA-2048/3072/4096/8192 - 8192 bits is the largest RSA key libp2p accepts) + freshly generated keys of every non-RSA algorithm (RSA fresh in thorough). Per key: FromPubKey -> String -> Parse -> == and PubKey().Equals; DID equality vs key equality over all pairs; ~40 alternative encodings of its key material under the right multicodec (uncompressed / hybrid / wrong-prefix / off-curve / padded / truncated points, wrong-length raw keys, RSA as PKIX, non-minimal DER, trailing bytes), non-minimal multicodec varints, other multibase prefixes, case and whitespace changes, bad base58 characters, unsupported codecs; plus random strings. " +
 			"Oracle: every accepted identifier from which a key can be extracted must be FromPubKey(key).String() (one principal, one DID); non-base58btc / non-did:key / unsupported-codec strings rejected; PubKey() returns a key or an error (a panic is caught and reported). " +
 			"non-trivial = alternative encoding or pair of different keys; distinct = the identifier string.",
 		Assumptions: []string{
@@ -36,7 +36,7 @@ func init() {
 		MinDistinct: floor(2000, 40000),
 		RequiredCells: func(string) []string {
 			cells := []string{"pairs/equal", "pairs/different", "alt/accepted-canonical", "alt/rejected-by-parse", "alt/rejected-by-pubkey", "string/rejected", "multibase/other", "codec/unsupported", "varint/non-minimal"}
-			for _, a := range []string{"ed25519", "secp256k1", "p256", "p384", "p521", "rsa2048", "rsa3072"} {
+			for _, a := range []string{"ed25519", "secp256k1", "p256", "p384", "p521", "rsa2048", "rsa3072", "rsa4096", "rsa8192"} {
 				cells = append(cells, "roundtrip/"+a)
 			}
 			for _, k := range []string{"uncompressed", "hybrid", "flipped-parity", "off-curve", "truncated", "trailing", "padded", "pkix", "der-nonminimal", "short", "long"} {
@@ -54,7 +54,7 @@ func didString(code uint64, material []byte) string {
 	return "did:key:" + s
 }
 
-var didCodes = map[string]uint64{"ed25519": 0xed, "secp256k1": 0xe7, "p256": 0x1200, "p384": 0x1201, "p521": 0x1202, "rsa2048": 0x1205, "rsa3072": 0x1205}
+var didCodes = map[string]uint64{"ed25519": 0xed, "secp256k1": 0xe7, "p256": 0x1200, "p384": 0x1201, "p521": 0x1202, "rsa2048": 0x1205, "rsa3072": 0x1205, "rsa4096": 0x1205, "rsa8192": 0x1205}
 
 type altEnc struct {
 	kind string
@@ -173,12 +173,12 @@ func altEncodings(r *rand.Rand, p *gen.Principal) []altEnc {
 			add("off-curve", append([]byte{material[0]}, make([]byte, sz)...))
 			// the same point under another curve's code
 			for alg, c := range didCodes {
-				if c != code && alg != "rsa3072" && alg != "rsa2048" && alg != "ed25519" {
+				if c != code && !strings.HasPrefix(alg, "rsa") && alg != "ed25519" {
 					out = append(out, altEnc{"wrong-curve-code", didString(c, material)})
 				}
 			}
 		}
-	case "rsa2048", "rsa3072":
+	case "rsa2048", "rsa3072", "rsa4096", "rsa8192":
 		raw, err := p.Pub.Raw() // PKIX
 		if err == nil {
 			add("pkix", raw)
